@@ -86,7 +86,11 @@ func newVectorAccumulator(expr parser.ItemType) (vectorAccumulator, error) {
 		}, nil
 	case "avg":
 		return func(in []float64) float64 {
-			return floats.Sum(in) / float64(len(in))
+			var mean float64
+			for i, v := range in {
+				mean = addToMean(mean, float64(i+1), v)
+			}
+			return mean
 		}, nil
 	case "group":
 		return func(in []float64) float64 {
